@@ -225,7 +225,7 @@ def run(t, budget=1.0):
             res.sample({"schema": entry.dir.split("/")[-1], "message": L.name, "script": " ".join(sc.tok)[:400], "buffer_len": size})
         line = "encode %d %s %s" % (mi, bg.hex(), " ".join(sc.tok))
         exp_buf = bytes(sc.buf).hex()
-        for cfg in entry.status["configs"]:
+        for cfg in entry.value_configs():
             resp = pc.call(entry, cfg, line)
             ok = False
             what = resp[:300]
